@@ -68,9 +68,10 @@ def run_digests(sim, fam, seed, tier, a, b, stall=15.0):
         threading.Thread(target=pump, daemon=True).start()
         last = cur - 1
         done = False
+        allow = stall
         while True:
             try:
-                l = q.get(timeout=stall)
+                l = q.get(timeout=allow)
             except queue.Empty:
                 p.kill()
                 p.wait()
@@ -78,6 +79,12 @@ def run_digests(sim, fam, seed, tier, a, b, stall=15.0):
             if l is None:
                 done = True
                 break
+            if l.startswith("L "):
+                # a scale scenario announced itself (seconds of real work; much more on a
+                # loaded machine or in a debug-assertion build): no stall detection for it
+                allow = stall + 240.0
+                continue
+            allow = stall
             if l.startswith("D "):
                 _, i, d, o, ops = l.split()
                 res[int(i)] = (d, o, int(ops))
@@ -102,7 +109,12 @@ def run_digests(sim, fam, seed, tier, a, b, stall=15.0):
 
 def digest_of(sim, fam, scenarios):
     inp = "\n".join(json.dumps(s) for s in scenarios) + "\n"
-    p = subprocess.run([sim, "digest-of", fam, "--clean"], input=inp, stdout=subprocess.PIPE, stderr=subprocess.DEVNULL, text=True, timeout=30)
+    # scale scenarios take seconds each (more in debug-assertion builds)
+    nlong = sum(1 for s in scenarios if isinstance(s, dict) and (s.get("giant") or s.get("huge")))
+    try:
+        p = subprocess.run([sim, "digest-of", fam, "--clean"], input=inp, stdout=subprocess.PIPE, stderr=subprocess.DEVNULL, text=True, timeout=30 + 240 * nlong)
+    except subprocess.TimeoutExpired:
+        return {}
     res = {}
     for l in p.stdout.splitlines():
         if l.startswith("D "):
